@@ -176,7 +176,62 @@ func verifRoot() string {
 	return "/verif"
 }
 
+// doReplay re-runs the check that produced a replay file (same property, tier and seed) and
+// reports whether the recorded violation occurs again on the current /repo.
 func doReplay(path string) int {
-	fmt.Println("replay not implemented for", path)
+	b, err := os.ReadFile(path)
+	if err != nil {
+		fmt.Println("cannot read replay file:", err)
+		return 2
+	}
+	var rp struct {
+		Property  string     `json:"property"`
+		Tier      string     `json:"tier"`
+		Seed      uint64     `json:"seed"`
+		Kind      string     `json:"kind"`
+		Violation *Violation `json:"violation"`
+		Finding   *Finding   `json:"finding"`
+	}
+	if err := json.Unmarshal(b, &rp); err != nil {
+		fmt.Println("bad replay file:", err)
+		return 2
+	}
+	if rp.Finding != nil {
+		still, note := replayWitness(*rp.Finding)
+		fmt.Printf("finding %s witness %v: still fails = %v %s\n", rp.Finding.ID, rp.Finding.Witness.Args, still, note)
+		if still {
+			return 1
+		}
+		return 0
+	}
+	f, ok := props[rp.Property]
+	if !ok || rp.Violation == nil {
+		fmt.Printf("replay of kind %q: no concrete input recorded (see the file for the theorem / correspondence stream that no longer checks)\n", rp.Kind)
+		return 0
+	}
+	res := &Result{Property: rp.Property, Tier: rp.Tier, Seed: rp.Seed, Distribution: map[string]any{}, Corr: map[string]*StreamStat{}}
+	ctx := &Ctx{Res: res, Seed: rp.Seed, Quick: rp.Tier != "thorough"}
+	if pool, err := StartPool(verifRoot()+"/_build/extract/driver", runtime.NumCPU()); err == nil {
+		ctx.Pool = pool
+		ctx.MEcos = pool.Ecos()
+		defer pool.Close()
+	}
+	f(ctx)
+	want, _ := json.Marshal(rp.Violation.Input)
+	for _, v := range res.Violations {
+		got, _ := json.Marshal(v.Input)
+		if v.Eco == rp.Violation.Eco && v.Kind == rp.Violation.Kind && string(got) == string(want) {
+			fmt.Printf("REPRODUCED: %s %s input=%s expected=%s actual=%s\n", v.Eco, v.Kind, got, v.Expected, v.Actual)
+			return 1
+		}
+	}
+	for _, v := range res.Violations {
+		if v.Eco == rp.Violation.Eco && v.Kind == rp.Violation.Kind {
+			got, _ := json.Marshal(v.Input)
+			fmt.Printf("REPRODUCED (same ecosystem and kind, another input): %s\n", got)
+			return 1
+		}
+	}
+	fmt.Println("not reproduced on the current tree")
 	return 0
 }
